@@ -190,10 +190,10 @@ def WriterRdataFaithful : Prop :=
 
 /-- nothing in `evs` touches TC or clears the sections; optional calls (inside
     `execute_allowing_truncation`) only ever concern the additional section; the recorded results
-    are faithful about RDATA -/
+    are faithful about RDATA if the writer is (`WriterRdataFaithful`) -/
 def Inv (evs : List Ev) : Prop :=
   ∀ e ∈ evs, (∀ b, e ≠ .tc b) ∧ e ≠ .clear ∧
-    (∀ a, e = .add a → (a.optional = true → a.sec = .additional) ∧ FaithRes a)
+    (∀ a, e = .add a → (a.optional = true → a.sec = .additional) ∧ (WriterRdataFaithful → FaithRes a))
 
 theorem Inv.nil : Inv [] := by simp [Inv]
 theorem Inv.append {a b : List Ev} (ha : Inv a) (hb : Inv b) : Inv (a ++ b) := by
@@ -321,7 +321,7 @@ def FaithCall (ev : AddEv) (m : M HV) : Prop :=
        ((m w).1 = .err .InvalidRdata → ev.rdatas.all (renderable ev.cls ev.ty) = false)
 
 theorem inv_addEv (ev : AddEv) (m : M HV) (hopt : ev.optional = true → ev.sec = .additional)
-    (hm : FaithCall ev m) (w : State) (r : Out WriterErr Unit)
+    (hm : WriterRdataFaithful → FaithCall ev m) (w : State) (r : Out WriterErr Unit)
     (hr : r = match (m w).1 with | .ok _ => .ok () | .err e => .err e | .panic => .panic) :
     Inv [Ev.add { ev with res := r }] := by
   intro e he
@@ -330,12 +330,12 @@ theorem inv_addEv (ev : AddEv) (m : M HV) (hopt : ev.optional = true → ev.sec 
   refine ⟨by simp, by simp, ?_⟩
   intro a ha
   cases ha
-  refine ⟨hopt, ?_, ?_⟩
+  refine ⟨hopt, fun hW => ⟨?_, ?_⟩⟩
   · intro h1
     simp only [] at h1
     rw [hr] at h1
     rcases h : (m w).1 with hv | e | _
-    · exact (hm w).1 hv h
+    · exact (hm hW w).1 hv h
     · rw [h] at h1; cases h1
     · rw [h] at h1; cases h1
   · intro h1
@@ -343,12 +343,12 @@ theorem inv_addEv (ev : AddEv) (m : M HV) (hopt : ev.optional = true → ev.sec 
     rw [hr] at h1
     rcases h : (m w).1 with hv | e | _
     · rw [h] at h1; cases h1
-    · rw [h] at h1; cases h1; exact (hm w).2 h
+    · rw [h] at h1; cases h1; exact (hm hW w).2 h
     · rw [h] at h1; cases h1
 
 /-- one logged writer call -/
 theorem Does.addCall (ev : AddEv) (m : M HV) (hopt : ev.optional = true → ev.sec = .additional)
-    (hm : FaithCall ev m) :
+    (hm : WriterRdataFaithful → FaithCall ev m) :
     Does (PM.addCall ev m) (okAdd ev.sec (evRecords ev)) (fun _ => True) := by
   intro ps
   unfold PM.addCall
@@ -382,17 +382,11 @@ theorem Does.addCall (ev : AddEv) (m : M HV) (hopt : ev.optional = true → ev.s
     simp only [GoodEv] at g
     rcases g with ⟨g, _⟩ | ⟨g, _⟩ <;> cases g
 
-/-- `WriterRdataFaithful` as an instance argument, so that it is threaded through the lemmas below -/
-class WriterOk : Prop where
-  out : WriterRdataFaithful
-
-variable [hW : WriterOk]
-
-theorem faith_addRrs (sec : RrSection) (hint : Hint) (owner : WName) (ty cls ttl : Nat)
+theorem faith_addRrs (hW : WriterRdataFaithful) (sec : RrSection) (hint : Hint) (owner : WName) (ty cls ttl : Nat)
     (rds : List (List UInt8)) (opt : Bool) (r : Out WriterErr Unit) :
     FaithCall ⟨sec, owner, ty, cls, ttl, rds, opt, r⟩ (withHv [] (addRrsetOp sec hint owner ty cls ttl rds)) := by
   intro w
-  have h := (hW.out sec hint owner ty cls ttl { w with hv := some [] }).1 rds
+  have h := (hW sec hint owner ty cls ttl { w with hv := some [] }).1 rds
   unfold Server.withHv
   rcases hr : addRrsetOp sec hint owner ty cls ttl rds { w with hv := some [] } with ⟨(u | e | _), w'⟩
   · rw [hr] at h; exact ⟨fun _ _ => h.1 rfl, by simp⟩
@@ -404,11 +398,11 @@ theorem faith_addRrs (sec : RrSection) (hint : Hint) (owner : WName) (ty cls ttl
     exact h.2 rfl
   · exact ⟨by simp, by simp⟩
 
-theorem faith_addRr1 (sec : RrSection) (hint : Hint) (owner : WName) (ty cls ttl : Nat)
+theorem faith_addRr1 (hW : WriterRdataFaithful) (sec : RrSection) (hint : Hint) (owner : WName) (ty cls ttl : Nat)
     (rd : List UInt8) (opt : Bool) (r : Out WriterErr Unit) :
     FaithCall ⟨sec, owner, ty, cls, ttl, [rd], opt, r⟩ (withHv [] (addRrOp sec hint owner ty cls ttl rd)) := by
   intro w
-  have h := (hW.out sec hint owner ty cls ttl { w with hv := some [] }).2 rd
+  have h := (hW sec hint owner ty cls ttl { w with hv := some [] }).2 rd
   unfold Server.withHv
   rcases hr : addRrOp sec hint owner ty cls ttl rd { w with hv := some [] } with ⟨(u | e | _), w'⟩
   · rw [hr] at h; exact ⟨fun _ _ => by simpa using h.1 rfl, by simp⟩
@@ -425,7 +419,7 @@ theorem Does.addRrs (opt : Bool) (sec : RrSection) (hint : Hint) (owner : WName)
     Does (PM.addRrs opt sec hint owner ty cls ttl rds)
       (okAdd sec (Spec.Resolve.rrs (fold owner) ty cls ⟨ty, ttl, rds⟩)) (fun _ => True) := by
   have := Does.addCall ⟨sec, owner, ty, cls, ttl, rds, opt, .ok ()⟩
-    (withHv [] (addRrsetOp sec hint owner ty cls ttl rds)) hopt (faith_addRrs sec hint owner ty cls ttl rds opt _)
+    (withHv [] (addRrsetOp sec hint owner ty cls ttl rds)) hopt (fun hW => faith_addRrs hW sec hint owner ty cls ttl rds opt _)
   rw [evRecords_eq] at this
   exact this
 
@@ -434,7 +428,7 @@ theorem Does.addRr1 (sec : RrSection) (hint : Hint) (owner : WName) (ty cls ttl 
       (okAdd sec [⟨fold owner, ty, cls, ttl, rd⟩]) (fun _ => True) := by
   unfold PM.addRr1
   have h := Does.addCall ⟨sec, owner, ty, cls, ttl, [rd], false, .ok ()⟩
-    (withHv [] (addRrOp sec hint owner ty cls ttl rd)) (by simp) (faith_addRr1 sec hint owner ty cls ttl rd false _)
+    (withHv [] (addRrOp sec hint owner ty cls ttl rd)) (by simp) (fun hW => faith_addRr1 hW sec hint owner ty cls ttl rd false _)
   have h2 : Does _ _ (fun _ : Unit => True) :=
     Does.bind h (fun a _ => Does.weaken (Does.pure ()) (fun _ _ => True.intro))
   rw [OD.seq_id_right] at h2
@@ -442,7 +436,6 @@ theorem Does.addRr1 (sec : RrSection) (hint : Hint) (owner : WName) (ty cls ttl 
 
 /-! ### names in RDATA: the writer's structural parser and the specification's -/
 
-omit hW in
 theorem parseLabels_eq (fuel : Nat) (b : List UInt8) : WName.parseLabels fuel b = labelsAt fuel b := by
   induction fuel generalizing b with
   | zero => rfl
@@ -455,7 +448,6 @@ theorem parseLabels_eq (fuel : Nat) (b : List UInt8) : WName.parseLabels fuel b 
       rw [this]
       rfl
 
-omit hW in
 theorem wire_length (ls : List Label) : (WName.mk ls).wire.length = wireLen ls := by
   simp only [WName.wire, wireLen, List.length_append, List.length_singleton]
   congr 1
@@ -463,7 +455,6 @@ theorem wire_length (ls : List Label) : (WName.mk ls).wire.length = wireLen ls :
   | nil => rfl
   | cons l ls ih => simp [List.flatMap_cons, WName.encLabel, ih]; omega
 
-omit hW in
 theorem parse_eq (b : List UInt8) :
     WName.parse b = match labelsAt (b.length + 1) b with
       | some (ls, r) => if wireLen ls ≤ 255 then some (⟨ls⟩, r) else none
@@ -475,7 +466,6 @@ theorem parse_eq (b : List UInt8) :
   | none => rfl
   | some p => simp only [wire_length, this]
 
-omit hW in
 theorem nameAt_eq (b : List UInt8) : Spec.Resolve.nameAt b = (WName.parse b).map (fun p => (fold p.1, p.2)) := by
   rw [parse_eq]
   unfold Spec.Resolve.nameAt
@@ -484,7 +474,6 @@ theorem nameAt_eq (b : List UInt8) : Spec.Resolve.nameAt b = (WName.parse b).map
   | some p =>
     by_cases h : wireLen p.1 ≤ 255 <;> simp [h, fold]
 
-omit hW in
 theorem exactName_eq (b : List UInt8) :
     exactName b = match WName.parse b with
       | some (n, []) => some (fold n)
@@ -495,7 +484,6 @@ theorem exactName_eq (b : List UInt8) :
   · rfl
   · cases r <;> rfl
 
-omit hW in
 theorem labelsAt_wire (fuel : Nat) (b : List UInt8) (ls : List Label) (r : List UInt8)
     (h : labelsAt fuel b = some (ls, r)) : b = ls.flatMap WName.encLabel ++ [0] ++ r := by
   induction fuel generalizing b ls r with
@@ -527,7 +515,6 @@ theorem labelsAt_wire (fuel : Nat) (b : List UInt8) (ls : List Label) (r : List 
               conv => lhs; rw [← this, e]
               simp [List.append_assoc]
 
-omit hW in
 theorem parse_wire (b : List UInt8) (n : WName) (h : WName.parse b = some (n, [])) : n.wire = b := by
   rw [parse_eq] at h
   rcases hl : labelsAt (b.length + 1) b with _ | ⟨ls, r⟩
@@ -544,13 +531,11 @@ theorem parse_wire (b : List UInt8) (n : WName) (h : WName.parse b = some (n, []
 def targetAt (start : Nat) (rd : List UInt8) : Option NameL.Name :=
   if rd.length < start then none else exactName (rd.drop start)
 
-omit hW in
 theorem targetOf_eq (t : Nat) (rd : List UInt8) :
     targetOf t rd = if t = MX then targetAt 2 rd else if t = SRV then targetAt 6 rd else targetAt 0 rd := by
   unfold targetOf targetAt
   simp
 
-omit hW in
 theorem Does.readName (rd : List UInt8) (start : Nat) :
     Does (readNameFromRdata rd start) (if (targetAt start rd).isSome then some {} else none)
       (fun n => targetAt start rd = some (fold n)) := by
@@ -572,9 +557,8 @@ theorem Does.readName (rd : List UInt8) (start : Nat) :
 
 /-! ### a call whose `Truncation` may be swallowed, followed by a continuation -/
 
-omit hW in
 theorem Does.bindOpt {β} (ev : AddEv) (m : M HV) (hopt : ev.optional = true → ev.sec = .additional)
-    (hm : FaithCall ev m) {k : HV → PM β} {b : β} {S2 : OD} {p2 : β → Prop} (hk : ∀ x, Does (k x) S2 p2) (hb : p2 b) :
+    (hm : WriterRdataFaithful → FaithCall ev m) {k : HV → PM β} {b : β} {S2 : OD} {p2 : β → Prop} (hk : ∀ x, Does (k x) S2 p2) (hb : p2 b) :
     Does (PM.addCall ev m >>= fun o => match o with
             | some x => k x
             | none => (Pure.pure b : PM β))
@@ -678,7 +662,7 @@ theorem Does.addrs {z : Zone.Zone} {sz : SZone} (hR : Rel z sz) (hint : Hint) (o
       rw [T_A_eq, hR.cls]
       have := Does.bindOpt ⟨.additional, owner, A, sz.cls, r.ttl, r.rdatas, opt, .ok ()⟩
         (withHv [] (addRrsetOp .additional hint owner A sz.cls r.ttl r.rdatas)) (fun _ => rfl)
-        (faith_addRrs .additional hint owner A sz.cls r.ttl r.rdatas opt _)
+        (fun hW => faith_addRrs hW .additional hint owner A sz.cls r.ttl r.rdatas opt _)
         (k := fun _ => Server.addAaaa z Hint.mostRecentOwner owner opt aaaa) (b := ()) (fun _ => hk) True.intro
       have e : Spec.Resolve.rrs (fold owner) A sz.cls ⟨A, r.ttl, r.rdatas⟩ = optRrs (fold owner) A sz.cls (some r) := by
         simp [optRrs, Spec.Resolve.rrs]
@@ -690,29 +674,24 @@ theorem Does.addrs {z : Zone.Zone} {sz : SZone} (hR : Rel z sz) (hint : Hint) (o
 
 /-! ### case folding -/
 
-omit hW in
 theorem lowerU8_idem (b : UInt8) : lowerU8 (lowerU8 b) = lowerU8 b := by
   revert b; apply QV.Wire.forall_uint8; unfold lowerU8; decide +kernel
 
 /-- a name all of whose labels are lower-case already -/
 def Folded (n : NameL.Name) : Prop := n.map NameL.lowerLabel = n
 
-omit hW in
 theorem lowerLabel_idem (l : NameL.Label) : NameL.lowerLabel (NameL.lowerLabel l) = NameL.lowerLabel l := by
   simp [NameL.lowerLabel, List.map_map, Function.comp_def, lowerU8_idem]
 
-omit hW in
 theorem folded_fold (n : WName) : Folded (fold n) := by
   simp [Folded, fold, List.map_map, Function.comp_def, lowerLabel_idem]
 
-omit hW in
 theorem Folded.suffix {c n : NameL.Name} (h : Folded n) (hs : c <:+ n) : Folded c := by
   obtain ⟨p, rfl⟩ := hs
   unfold Folded at h ⊢
   rw [List.map_append] at h
   exact (List.append_inj h (by simp)).2
 
-omit hW in
 theorem fold_unfold {n : NameL.Name} (h : Folded n) : fold (unfold n) = n := h
 
 /-! ### the loops of additional-section processing -/
@@ -753,27 +732,16 @@ theorem Does.additionalLoop {z : Zone.Zone} {sz : SZone} (hR : Rel z sz) (start 
       | none => simp
       | some ts => simp [List.flatMap_cons, okAdd_append]
 
-omit hW in
 theorem T_MB : T "MB" = MB := by decide
-omit hW in
 theorem T_MD : T "MD" = MD := by decide
-omit hW in
 theorem T_MF : T "MF" = MF := by decide
-omit hW in
 theorem T_NS : T "NS" = NS := by decide
-omit hW in
 theorem T_MX : T "MX" = MX := by decide
-omit hW in
 theorem T_SRV : T "SRV" = SRV := by decide
-omit hW in
 theorem T_SOA : T "SOA" = SOA := by decide
-omit hW in
 theorem T_CNAME : T "CNAME" = CNAME := by decide
-omit hW in
 theorem RC_NXDOMAIN : RC "NXDOMAIN" = NXDOMAIN := by decide
-omit hW in
 theorem RC_SERVFAIL : RC "SERVFAIL" = SERVFAIL := by decide
-omit hW in
 theorem QT_ANY : QT "ANY" = ANY := by decide
 
 /-- additional-section processing of the specification, as an optional delta -/
@@ -838,11 +806,9 @@ theorem Does.additionalProcessing {z : Zone.Zone} {sz : SZone} (hR : Rel z sz) (
 
 /-! ### referrals -/
 
-omit hW in
 theorem eqOrSub_eq (n c : NameL.Name) : NameL.eqOrSubdomainOf n c = c.isSuffixOf n := by
   rw [Bool.eq_iff_iff, eqOrSubdomainOf_iff, List.isSuffixOf_iff_suffix]
 
-omit hW in
 theorem Does.classifyNs (child : NameL.Name) (hc : Folded child) (rds : List (List UInt8)) (idx : Nat) :
     Does (Server.classifyNs (unfold child) rds idx)
       (if (allSome (rds.map (targetAt 0))).isSome then some {} else none)
@@ -915,7 +881,6 @@ def referralS (sz : SZone) (child : NameL.Name) (ns : Rrset) : OD :=
        okAdd .additional (inb.flatMap (fun n => addrRRs sz n true) ++ others.flatMap (fun n => addrRRs sz n true))
      | none => none)
 
-omit hW in
 theorem targetOf_NS (rd : List UInt8) : targetOf NS rd = targetAt 0 rd := by
   rw [targetOf_eq]; simp [NS, MX, SRV]
 
@@ -964,7 +929,6 @@ def soaTail (r2 : List UInt8) : Option Nat :=
     | _ => none
   else none
 
-omit hW in
 theorem soaMinimum_eq (rd : List UInt8) :
     soaMinimum rd = match WName.parse rd with
       | some (_, r1) => (match WName.parse r1 with
@@ -980,7 +944,6 @@ theorem soaMinimum_eq (rd : List UInt8) :
     · rfl
     · rfl
 
-omit hW in
 theorem Does.readSoaMinimum (rd : List UInt8) :
     Does (Server.readSoaMinimum rd) (if (soaMinimum rd).isSome then some {} else none)
       (fun m => soaMinimum rd = some m) := by
@@ -1076,12 +1039,10 @@ def chainS (sz : SZone) (qtype : Nat) (links : Nat) (visited : List NameL.Name) 
   | (_, .fail) => none
   | (ls, e) => OD.seq (okAdd .answer ls) (endS sz qtype e)
 
-omit hW in
 theorem chainS_zero (sz : SZone) (qtype : Nat) (visited : List NameL.Name) (owner : NameL.Name) (cn : Rrset) :
     chainS sz qtype 0 visited owner cn = none := by
   simp [chainS, chase]
 
-omit hW in
 theorem chainS_succ (sz : SZone) (qtype : Nat) (links : Nat) (visited : List NameL.Name) (owner : NameL.Name)
     (cn : Rrset) :
     chainS sz qtype (links + 1) visited owner cn =
@@ -1124,7 +1085,6 @@ theorem chainS_succ (sz : SZone) (qtype : Nat) (links : Nat) (visited : List Nam
         | nxDomain => simp [cycleEnd, endS]
         | wrongZone => simp [cycleEnd, endS]
 
-omit hW in
 theorem specLookup_referral_suffix {sz : SZone} {n : NameL.Name} {t : Nat} {o : Opts} {c : NameL.Name} {ns : Rrset}
     (h : specLookup sz n t o = .referral c ns) : c <:+ n := by
   unfold specLookup at h
@@ -1145,7 +1105,6 @@ theorem specLookup_referral_suffix {sz : SZone} {n : NameL.Name} {t : Nat} {o : 
   | nxDomain => rw [hb] at h; cases h
   | wrongZone => rw [hb] at h; cases h
 
-omit hW in
 theorem specLookupAll_referral_suffix {sz : SZone} {n : NameL.Name} {o : Opts} {c : NameL.Name} {ns : Rrset}
     (h : specLookupAll sz n o = .referral c ns) : c <:+ n := by
   unfold specLookupAll at h
@@ -1161,12 +1120,10 @@ theorem specLookupAll_referral_suffix {sz : SZone} {n : NameL.Name} {o : Opts} {
   | nxDomain => rw [hb] at h; cases h
   | wrongZone => rw [hb] at h; cases h
 
-omit hW in
 theorem rrs_mk (o : NameL.Name) (t c : Nat) (s : Rrset) :
     Spec.Resolve.rrs o t c ⟨t, s.ttl, s.rdatas⟩ = Spec.Resolve.rrs o t c s := by
   simp [Spec.Resolve.rrs]
 
-omit hW in
 /-- the model's loop test is membership in the specification's visited list -/
 theorem loop_test (cname qname : WName) (os : List WName) :
     ((os.map fold).reverse ++ [fold qname]).contains (fold cname) =
@@ -1220,7 +1177,6 @@ theorem Does.cycleEnd {z : Zone.Zone} {sz : SZone} (hR : Rel z sz) (ha : Folded 
     simp only [Spec.Resolve.cycleEnd, Option.getD_some, endS]
     exact Does.weaken (Does.pure ()) (fun _ _ => True.intro)
 
-omit hW in
 theorem MAX_CHAIN : Gen.MAX_CNAME_CHAIN_LEN = 8 := rfl
 
 theorem Does.followCname {z : Zone.Zone} {sz : SZone} (hR : Rel z sz) (ha : Folded sz.apex)
@@ -1326,15 +1282,12 @@ theorem Does.followCname {z : Zone.Zone} {sz : SZone} (hR : Rel z sz) (ha : Fold
 
 /-! ### `answer` and `answer_any` -/
 
-omit hW in
 theorem specLookup_unchecked (sz : SZone) (n : NameL.Name) (t : Nat) (u sbc : Bool) :
     specLookup sz n t ⟨u, sbc⟩ = specLookup sz n t ⟨false, sbc⟩ := rfl
 
-omit hW in
 theorem specLookupAll_unchecked (sz : SZone) (n : NameL.Name) (u sbc : Bool) :
     specLookupAll sz n ⟨u, sbc⟩ = specLookupAll sz n ⟨false, sbc⟩ := rfl
 
-omit hW in
 theorem specLookupBase_ne_wrongZone {sz : SZone} {n : NameL.Name} (hq : sz.apex <:+ n) (sbc : Bool) :
     specLookupBase sz n sbc ≠ .wrongZone := by
   intro h
@@ -1343,7 +1296,6 @@ theorem specLookupBase_ne_wrongZone {sz : SZone} {n : NameL.Name} (hq : sz.apex 
   cases hs with
   | wrongZone hn => exact hn hq
 
-omit hW in
 theorem specLookup_ne_wrongZone {sz : SZone} {n : NameL.Name} (hq : sz.apex <:+ n) (t : Nat) (o : Opts) :
     specLookup sz n t o ≠ .wrongZone := by
   unfold specLookup
@@ -1358,7 +1310,6 @@ theorem specLookup_ne_wrongZone {sz : SZone} {n : NameL.Name} (hq : sz.apex <:+ 
   | nxDomain => simp
   | wrongZone => exact absurd hb this
 
-omit hW in
 theorem specLookupAll_ne_wrongZone {sz : SZone} {n : NameL.Name} (hq : sz.apex <:+ n) (o : Opts) :
     specLookupAll sz n o ≠ .wrongZone := by
   unfold specLookupAll
@@ -1486,10 +1437,8 @@ def OD.view : OD → View
   | some d => d.apply {}
   | none => servfailView
 
-omit hW in
 @[simp] theorem allRenderable_nil : allRenderable [] = true := rfl
 
-omit hW in
 theorem finish_data (sz : SZone) (qt : Nat) (ls : List RR) (o : NameL.Name) (s : Rrset) :
     View.ofResolution (Spec.Resolve.finish sz qt ls (.data o s)) =
       OD.view (OD.seq (some { aa := some true }) (OD.seq (okAdd .answer ls) (endS sz qt (.data o s)))) := by
@@ -1501,7 +1450,6 @@ theorem finish_data (sz : SZone) (qt : Nat) (ls : List RR) (o : NameL.Name) (s :
     cases allRenderable ls <;> cases allRenderable (Spec.Resolve.rrs o qt sz.cls s) <;> cases allRenderable ar <;>
       simp [OD.view, OD.seq, Delta.seq, Delta.apply, Delta.add, View.ofResolution, servfailView, servfail, NOERROR]
 
-omit hW in
 theorem finish_negative (sz : SZone) (rcode : Nat) (ls : List RR) :
     View.ofResolution (negative sz rcode ls) =
       OD.view (OD.seq (some { aa := some true, rcode := some rcode }) (OD.seq (okAdd .answer ls) (negativeS sz))) := by
@@ -1513,7 +1461,6 @@ theorem finish_negative (sz : SZone) (rcode : Nat) (ls : List RR) :
     cases allRenderable ls <;> cases allRenderable [soa] <;>
       simp [OD.view, OD.seq, Delta.seq, Delta.apply, Delta.add, View.ofResolution, servfailView, servfail]
 
-omit hW in
 theorem finish_outOfZone (sz : SZone) (qt : Nat) (ls : List RR) :
     View.ofResolution (Spec.Resolve.finish sz qt ls .outOfZone) =
       OD.view (OD.seq (some { aa := some true }) (OD.seq (okAdd .answer ls) (endS sz qt .outOfZone))) := by
@@ -1521,7 +1468,6 @@ theorem finish_outOfZone (sz : SZone) (qt : Nat) (ls : List RR) :
   cases allRenderable ls <;>
     simp [OD.view, OD.seq, Delta.seq, Delta.apply, Delta.add, View.ofResolution, servfailView, servfail, NOERROR]
 
-omit hW in
 theorem finish_referral (sz : SZone) (qt : Nat) (ls : List RR) (c : NameL.Name) (ns : Rrset) :
     View.ofResolution (Spec.Resolve.finish sz qt ls (.referral c ns)) =
       OD.view (OD.seq (some { aa := some (!ls.isEmpty) }) (OD.seq (okAdd .answer ls) (endS sz qt (.referral c ns)))) := by
@@ -1536,7 +1482,6 @@ theorem finish_referral (sz : SZone) (qt : Nat) (ls : List RR) (c : NameL.Name) 
       cases allRenderable (List.flatMap (fun n => addrRRs sz n true) others) <;>
       simp [OD.view, OD.seq, Delta.seq, Delta.apply, Delta.add, View.ofResolution, servfailView, servfail, NOERROR]
 
-omit hW in
 theorem okAdd_plain {sec : RrSection} {rs : List RR} {d : Delta} (h : okAdd sec rs = some d) :
     d.rcode = none ∧ d.aa = none := by
   unfold okAdd at h
@@ -1544,14 +1489,12 @@ theorem okAdd_plain {sec : RrSection} {rs : List RR} {d : Delta} (h : okAdd sec 
   · cases h; cases sec <;> simp [Delta.add]
   · cases h
 
-omit hW in
 theorem negativeS_plain {sz : SZone} {d : Delta} (h : negativeS sz = some d) : d.rcode = none ∧ d.aa = none := by
   unfold negativeS at h
   split at h
   · exact okAdd_plain h
   · cases h
 
-omit hW in
 /-- a chain that does not fail has collected at least one CNAME record -/
 theorem chase_nonempty (sz : SZone) (qt links : Nat) (visited : List NameL.Name) (owner : NameL.Name) (cn : Rrset)
     (ls : List RR) (e : End) (h : chase sz qt links visited owner cn = (ls, e)) (he : e ≠ .fail) : ls ≠ [] := by
@@ -1575,7 +1518,6 @@ theorem chase_nonempty (sz : SZone) (qt links : Nat) (visited : List NameL.Name)
 def resolveS (sz : SZone) (qn : NameL.Name) (qt : Nat) : OD :=
   if qt = ANY then anyS sz qn else answerS sz qn qt
 
-omit hW in
 theorem answerS_view (sz : SZone) (qn : NameL.Name) (qt : Nat) (hne : qt ≠ ANY) (hq : sz.apex <:+ qn) :
     OD.view (answerS sz qn qt) = View.ofResolution (specResolve sz qn qt) := by
   unfold answerS specResolve
@@ -1640,7 +1582,6 @@ theorem answerS_view (sz : SZone) (qn : NameL.Name) (qt : Nat) (hne : qt ≠ ANY
     | some d2 => simp [okAdd_nil, OD.view, OD.seq, Delta.seq, Delta.apply, negativeS_plain h2]
   | wrongZone => exact absurd hl (specLookup_ne_wrongZone hq _ _)
 
-omit hW in
 theorem anyS_view (sz : SZone) (qn : NameL.Name) (hq : sz.apex <:+ qn) :
     OD.view (anyS sz qn) = View.ofResolution (resolveAny sz qn) := by
   unfold anyS resolveAny
@@ -1671,7 +1612,6 @@ theorem anyS_view (sz : SZone) (qn : NameL.Name) (hq : sz.apex <:+ qn) :
     | some d2 => simp [okAdd_nil, OD.view, OD.seq, Delta.seq, Delta.apply, negativeS_plain h2]
   | wrongZone => exact absurd hl (specLookupAll_ne_wrongZone hq _)
 
-omit hW in
 /-- **the specification is the view of its delta form** -/
 theorem resolveS_view (sz : SZone) (qn : NameL.Name) (qt : Nat) (hq : sz.apex <:+ qn) :
     OD.view (resolveS sz qn qt) = View.ofResolution (specResolve sz qn qt) := by
@@ -1687,12 +1627,10 @@ theorem resolveS_view (sz : SZone) (qn : NameL.Name) (qt : Nat) (hq : sz.apex <:
 /-- no header operation failed -/
 def NoBad (evs : List Ev) : Prop := Ev.bad ∉ evs
 
-omit hW in
 theorem GoodLog.noBad {evs : List Ev} (h : GoodLog evs) : NoBad evs := by
   intro hb
   exact h _ hb
 
-omit hW in
 theorem hdrOp_log (ev : Ev) (m : M Unit) (ps : PS) :
     ((PM.hdrOp ev m ps).2.log = ps.log ++ [ev] ∧ (PM.hdrOp ev m ps).1 = .ok ()) ∨
     (PM.hdrOp ev m ps).2.log = ps.log ++ [.bad] := by
@@ -1706,7 +1644,6 @@ def tailEvs (tr : Transport) : Out PErr Unit → List Ev
   | .err .truncation => if tr = .tcp then [.clear, .aa false, .rcode SERVFAIL] else [.clear, .tc true]
   | .panic => []
 
-omit hW in
 /-- three header operations in a row -/
 theorem hdr3_log (e1 e2 e3 : Ev) (m1 m2 m3 : M Unit) (ps : PS)
     (hnb : NoBad ((do PM.hdrOp e1 m1; PM.hdrOp e2 m2; PM.hdrOp e3 m3 : PM Unit) ps).2.log) :
@@ -1726,7 +1663,6 @@ theorem hdr3_log (e1 e2 e3 : Ev) (m1 m2 m3 : M Unit) (ps : PS)
   · rw [h1] at hnb; simp [NoBad] at hnb
   · rw [h1] at hnb; simp [NoBad] at hnb
 
-omit hW in
 theorem hdr2_log (e1 e2 : Ev) (m1 m2 : M Unit) (ps : PS)
     (hnb : NoBad ((do PM.hdrOp e1 m1; PM.hdrOp e2 m2 : PM Unit) ps).2.log) :
     ((do PM.hdrOp e1 m1; PM.hdrOp e2 m2 : PM Unit) ps).2.log = ps.log ++ [e1, e2] ∧
@@ -1745,7 +1681,6 @@ theorem hdr2_log (e1 e2 : Ev) (m1 m2 : M Unit) (ps : PS)
 def inner (z : Zone.Zone) (qname : WName) (qtype : Nat) : PM Unit :=
   if qtype = QT "ANY" then answerAny z qname else Server.answer z qname qtype
 
-omit hW in
 /-- **the epilogue of `handle_non_axfr_query`**: after the answering logic returned `r`, exactly the
     events `tailEvs tr r` are appended (provided no header operation fails), and the result is `Ok`
     unless the answering logic panicked -/
@@ -1790,7 +1725,6 @@ theorem Does.inner {z : Zone.Zone} {sz : SZone} (hR : Rel z sz) (ha : Folded sz.
   · rw [if_pos h, if_pos h]; exact Does.answerAny hR ha qname hq
   · rw [if_neg h, if_neg h]; exact Does.answer hR ha qname qtype hq
 
-omit hW in
 theorem foldl_tc {evs : List Ev} (hi : Inv evs) (v : View) : (evs.foldl View.step v).tc = v.tc := by
   induction evs generalizing v with
   | nil => rfl
@@ -1851,14 +1785,13 @@ theorem handle_view {z : Zone.Zone} {sz : SZone} (hR : Rel z sz) (ha : Folded sz
 def NoCapErr (evs : List Ev) : Prop :=
   ∀ e ∈ evs, e ≠ .bad ∧ ∀ a, e = .add a → a.res = .ok () ∨ a.res = .err .InvalidRdata
 
-omit hW in
-theorem goodLog_of_inv {evs : List Ev} (hi : Inv evs) (hn : NoCapErr evs) : GoodLog evs := by
+theorem goodLog_of_inv (hW : WriterRdataFaithful) {evs : List Ev} (hi : Inv evs) (hn : NoCapErr evs) : GoodLog evs := by
   intro e he
   have h1 := hi e he
   have h2 := hn e he
   cases e with
   | add a =>
-    have hf := (h1.2.2 a rfl).2
+    have hf := (h1.2.2 a rfl).2 hW
     rcases h2.2 a rfl with h | h
     · exact Or.inl ⟨h, hf.1 h⟩
     · exact Or.inr ⟨h, hf.2 h⟩
@@ -1868,7 +1801,6 @@ theorem goodLog_of_inv {evs : List Ev} (hi : Inv evs) (hn : NoCapErr evs) : Good
   | clear => trivial
   | bad => exact absurd rfl h2.1
 
-omit hW in
 theorem NoCapErr.append {a b : List Ev} : NoCapErr (a ++ b) ↔ NoCapErr a ∧ NoCapErr b := by
   unfold NoCapErr
   constructor
@@ -1879,10 +1811,8 @@ theorem NoCapErr.append {a b : List Ev} : NoCapErr (a ++ b) ↔ NoCapErr a ∧ N
     · exact h1 e h
     · exact h2 e h
 
-omit hW in
 theorem NoCapErr.noBad {evs : List Ev} (h : NoCapErr evs) : NoBad evs := fun hb => (h _ hb).1 rfl
 
-omit hW in
 theorem goodLog_tail (tr : Transport) (r : Out PErr Unit) : GoodLog (tailEvs tr r) := by
   intro e he
   cases r with
@@ -1904,7 +1834,7 @@ theorem goodLog_tail (tr : Transport) (r : Out PErr Unit) : GoodLog (tailEvs tr 
 /-- **C05, model side, in its final form**: started with an empty log, if no logged writer call
     reports a capacity error (or panics), `handle_non_axfr_query` returns `Ok` and the view of its
     log — RCODE, AA, TC, the three sections — is the specification's resolution -/
-theorem handle_view_nocap {z : Zone.Zone} {sz : SZone} (hR : Rel z sz) (ha : Folded sz.apex)
+theorem handle_view_nocap (hW : WriterRdataFaithful) {z : Zone.Zone} {sz : SZone} (hR : Rel z sz) (ha : Folded sz.apex)
     (qname : WName) (qtype : Nat) (hq : sz.apex <:+ fold qname) (tr : Transport) (ps : PS) (h0 : ps.log = [])
     (hn : NoCapErr (handleNonAxfrQueryL z qname qtype tr ps).2.log) :
     (handleNonAxfrQueryL z qname qtype tr ps).1 = .ok () ∧
@@ -1915,6 +1845,6 @@ theorem handle_view_nocap {z : Zone.Zone} {sz : SZone} (hR : Rel z sz) (ha : Fol
   obtain ⟨evs, hl, hi, _, _⟩ := Does.inner hR ha qname qtype hq ps
   rw [h0, List.nil_append] at hl
   rw [hlog, hl] at hn ⊢
-  exact GoodLog.append.mpr ⟨goodLog_of_inv hi (NoCapErr.append.mp hn).1, goodLog_tail _ _⟩
+  exact GoodLog.append.mpr ⟨goodLog_of_inv hW hi (NoCapErr.append.mp hn).1, goodLog_tail _ _⟩
 
 end QV.ServerAnswer
